@@ -33,6 +33,39 @@ func (p *Prog) classifyType(n *types.Named) string {
 		return "dual"
 	}
 	if _, isStruct := n.Underlying().(*types.Struct); isStruct {
+		// an unexported struct that only ever lives as a value field inside per-request types
+		// (fields of context grouped into one struct) is part of those objects
+		if !n.Obj().Exported() {
+			owners, allReq := 0, true
+			for _, pk := range p.Pkgs {
+				sc := pk.Types.Scope()
+				for _, nm := range sc.Names() {
+					tn, ok := sc.Lookup(nm).(*types.TypeName)
+					if !ok {
+						continue
+					}
+					st, ok := tn.Type().Underlying().(*types.Struct)
+					if !ok {
+						continue
+					}
+					for i := 0; i < st.NumFields(); i++ {
+						ft := st.Field(i).Type()
+						if types.Identical(ft, n) {
+							owners++
+							if !perRequestTypes[tn.Name()] {
+								allReq = false
+							}
+						} else if pt, isP := ft.(*types.Pointer); isP && types.Identical(pt.Elem(), n) {
+							owners++
+							allReq = false // shared through a pointer: anything may hold it
+						}
+					}
+				}
+			}
+			if owners > 0 && allReq {
+				return "request"
+			}
+		}
 		return "shared"
 	}
 	return ""
